@@ -20,6 +20,19 @@ static const char *argVal(int argc, char **argv, const char *name,
     return def;
 }
 
+#ifdef SIM_COV
+// same encoding as c18.cc: guard id g is bit (g % 4) of hex digit g / 4
+static std::string covBitmapHex(const std::vector<uint32_t> &ids, int n) {
+    static const char *H = "0123456789abcdef";
+    std::vector<uint8_t> nib((size_t)(n / 4 + 1), 0);
+    for (auto id : ids)
+        if ((int)id <= n) nib[id / 4] |= (uint8_t)(1 << (id % 4));
+    std::string s(nib.size(), '0');
+    for (size_t i = 0; i < nib.size(); i++) s[i] = H[nib[i]];
+    return s;
+}
+#endif
+
 static uint64_t propCode(const std::string &p) {
     return (uint64_t)atoi(p.c_str() + 1);
 }
@@ -72,6 +85,18 @@ static int cmdRun(int argc, char **argv) {
             fprintf(stderr, "unknown property %s in this build\n", prop.c_str());
             return 2;
         }
+#ifdef SIM_COV
+        // edge coverage of the instrumented library (clang builds only): cumulative per worker, emitted
+        // whenever it grew; reporting only — never part of the event-log hash or of a verdict
+        if (prop != "C18" && guardCount() > 0) {
+            static int lastCovered = -1;
+            int now = guardsCovered();
+            if (now != lastCovered) {
+                line->set("cov", covBitmapHex(guardCoveredIds(), guardCount()));
+                lastCovered = now;
+            }
+        }
+#endif
         {
             AmbientReads ar = ambientReads();
             if (ar.total()) {
@@ -153,6 +178,10 @@ int main(int argc, char **argv) {
         JP g = JVal::arr();
         for (auto &s : guardFunctionNames()) g->push(JVal::str(s));
         j->set("guard_functions", g);
+        extern std::vector<uint64_t> guardPcs();
+        JP pcs = JVal::arr();
+        for (auto pc : guardPcs()) pcs->push(JVal::str(hex64(pc)));
+        j->set("guard_pcs", pcs);
         puts(j->dump().c_str());
         return 0;
     }
